@@ -31,7 +31,7 @@ ALPHABET = ";= \",a%1"
 
 SPECIAL = ["\t", "\n", "\r", "%", ";", "=", "&", ",", '"', " ", "\x00", "\x01", "\x1f", "\x7f", "\x85", " ", " ",
            "\xa0", "　", "​", "\U0001F9EC", "\U00010000", "\U0010FFFF", "é", "漢", "́", "‮", "\\", "'",
-           "%25", "%3B", "%09", "%zz", "%", "+", "\x0b", "\x0c", "\x1c", "﻿"]
+           "%25", "%3B", "%09", "%zz", "%", "+", "\\\\", "\\\"", "\\n", "%41", "%20", "\x0b", "\x0c", "\x1c", "﻿"]
 GTF_FORBIDDEN = set(';",') | {chr(i) for i in range(32)} | {chr(127)} | {chr(i) for i in range(0x80, 0xA0)}
 
 
@@ -69,7 +69,7 @@ def mapping(rng, gtf):
     m = []
     used = []
     for _ in range(rng.randrange(1, 5)):
-        k = R.key(rng, wordlike=False, used=used)
+        k = R.key(rng, wordlike=False, used=used, ascii_only=True)   # the statement's keys: [A-Za-z_][A-Za-z0-9_.-]*
         used.append(k)
         m.append([k, [uvalue(rng, gtf) for _ in range(1 if rng.random() < 0.7 else rng.randrange(2, 4))]])
     return m
